@@ -794,6 +794,16 @@ def rule_map_first(ctx: RuleContext, p: Program, rid: str) -> None:
                 return list(self.items)
             return super().iter_of(v, node)
 
+        def call_value(self, f: Any, args: list, kwargs: dict, node: Any) -> Any:      # type: ignore[override]
+            if isinstance(f, possem.Builtin) and f.name == 'len' and args and args[0] is self.wrapper:
+                return len(self.items)
+            return super().call_value(f, args, kwargs, node)
+
+        def truth(self, v: Any, node: Any) -> bool:               # type: ignore[override]
+            if v is self.wrapper:
+                return bool(self.items)
+            return super().truth(v, node)
+
         def expr(self, e: Any, env: dict) -> Any:                 # type: ignore[override]
             if isinstance(e, ast.Name) and e.id not in env:
                 if e.id in sentinels:
@@ -868,6 +878,8 @@ def rule_map_first(ctx: RuleContext, p: Program, rid: str) -> None:
                 return None
             if name == '__contains__':
                 return any(x is args[0] for x in items)
+            if name == 'pop' and not args:
+                args = [-1]
             i = args[0]
             if not isinstance(i, int) or isinstance(i, bool):
                 raise self.err(node, f'positional operation {name} with index {i!r}')
@@ -980,6 +992,87 @@ def rule_map_first(ctx: RuleContext, p: Program, rid: str) -> None:
                       f'{w.name}.{method}(key): {problem}: the methods of one mapping view disagree on which of several items with the same key '
                       f'a key means (first-match is what reads use), so writing through a key changes a different meta line than the one read back',
                       fnm.where, note=f'{cnt} layouts x keys')
+    # a value that is a model and is taken out through the mapping (pop(key), popitem()) comes back alone in its store: the rest of the removed
+    # meta line (indent, key, blanks, line end, comments) is stripped off, so the value can be inserted elsewhere
+    def model_items(keys: tuple) -> list:
+        out = []
+        for i, k in enumerate(keys):
+            doc = [possem.Obj('Tok', {}, f'{nm}{i}') for nm in ('indent', 'key', 'blank', 'value', 'eol')]
+            st = possem.Obj('VStore', {'doc': doc}, f'store of item{i}')
+            val = possem.Obj('Value', {'model': True, 'token_store': st, 'first_token': doc[3], 'last_token': doc[3]}, f'v{i}')
+            out.append(possem.Obj('MetaItem', {'key': k, 'value': val, 'token_store': st, 'first_token': doc[0], 'last_token': doc[4]}, f'item{i}'))
+        return out
+
+    class StoreInterp(Interp):
+        def expr(self, e: Any, env: dict) -> Any:                 # type: ignore[override]
+            if isinstance(e, ast.Call) and isinstance(e.func, ast.Attribute) and e.func.attr in ('get_prev', 'get_next', 'remove', 'get_first', 'get_last'):
+                b = self.expr(e.func.value, env)
+                if isinstance(b, possem.Obj) and b.cls == 'VStore':
+                    d = b.f['doc']
+                    a = [self.expr(x, env) for x in e.args]
+                    ix = lambda t: next(i for i, x in enumerate(d) if x is t)          # noqa: E731
+                    try:
+                        if e.func.attr == 'get_prev':
+                            i = ix(a[0])
+                            return d[i - 1] if i > 0 else None
+                        if e.func.attr == 'get_next':
+                            i = ix(a[0])
+                            return d[i + 1] if i + 1 < len(d) else None
+                        if e.func.attr == 'get_first':
+                            return d[0] if d else None
+                        if e.func.attr == 'get_last':
+                            return d[-1] if d else None
+                        i, j = ix(a[0]), ix(a[1])
+                    except StopIteration:
+                        raise possem.Raised('ValueError: token is not in the store')
+                    if j < i:
+                        raise possem.Raised('ValueError: empty range')
+                    del d[i:j + 1]
+                    return None
+            return super().expr(e, env)
+
+        def truth(self, v: Any, node: Any) -> bool:               # type: ignore[override]
+            if isinstance(v, possem.Obj) and v is not self.wrapper:
+                return True
+            return super().truth(v, node)
+
+    w = wrappers[1]
+    for method in ('pop', 'popitem'):
+        fn = w.lookup(method)
+        if not isinstance(fn, FuncInfo) or fn.cls not in wrappers:
+            continue          # popitem inherited from collections.abc fails before it touches anything (iteration yields items, not keys)
+        problem = None
+        cnt = 0
+        for keys in layouts:
+            if not keys:
+                continue
+            items = model_items(keys)
+            wrapper = possem.Obj(w.name, {}, 'wrapper')
+            it = StoreInterp(items, wrapper)
+            it.wrapper_cls = w
+            target = items[next(i for i, k in enumerate(keys) if k == keys[-1])] if method == 'pop' else items[-1]
+            cnt += 1
+            n += 1
+            try:
+                res = it.call_function(fn, [wrapper] + ([keys[-1]] if method == 'pop' else []), {})
+            except possem.Raised as ex:
+                problem = problem or f'keys {list(keys)}: raises {ex}'
+                continue
+            val = res[1] if method == 'popitem' and isinstance(res, tuple) and len(res) == 2 else res
+            where_ = f'keys {list(keys)}, {method}({repr(keys[-1]) if method == "pop" else ""})'
+            if method == 'popitem' and not (isinstance(res, tuple) and len(res) == 2 and res[0] == target.f['key']):
+                problem = problem or f'{where_}: returns {res!r}, dict.popitem returns the (key, value) pair of the last item'
+            elif val is not target.f['value']:
+                problem = problem or f'{where_}: returns {val!r}, not the value of {target.label}'
+            elif any(x is target for x in items):
+                problem = problem or f'{where_}: {target.label} is still in the list'
+            elif [x.label for x in val.f['token_store'].f['doc']] != [val.f['first_token'].label]:
+                problem = problem or (f'{where_}: the model that is returned sits in a store that still holds '
+                                      f'{[x.label for x in val.f["token_store"].f["doc"]]} -- the rest of the removed meta line: it is not a tree of its own '
+                                      f'(it does not span its store, assigning it elsewhere raises "Cannot reuse node"), unlike what pop(key) hands out')
+        ctx.check(problem is None, rid, f'models.meta_item_internal:{w.name}.{method}', 'a model taken out comes back alone in its store',
+                  f'{w.name}.{method}: {problem}', fn.where, note=f'{cnt} key layouts with model values')
+
     # keys() / values() / items(): the views iterate the items position by position -- an item that shares its key with an earlier one still
     # shows its OWN value (a dict built from the ledger lines, not a lookup by key per line)
     n_views = 0
@@ -1335,6 +1428,47 @@ def rule_view_sem(ctx: RuleContext, p: Program, rid: str, max_raw: int = 4) -> N
                     problems.setdefault(meth, f'{shown}: {"raises " + str(got_exc) if got_exc else "does not raise"}')
                 elif not want_exc and [id(x) for x in now_view] != [id(x) for x in want_view]:
                     problems.setdefault(meth, f'{shown}: the view afterwards is {[x.label for x in now_view]}, expected {[x.label for x in want_view]}')
+        # by-value removal when several items carry an equal value (two postings of one account, a tag listed twice): the view converts every raw
+        # item to a plain value and compares those
+        by_val = possem._Lambda(ast.parse('lambda x: x.val', mode='eval').body, {})
+        for meth in ('remove', 'discard'):
+            fn = vw.lookup(meth)
+            if not isinstance(fn, FuncInfo) or nview < 2:
+                continue
+            for pattern in ('aaaa', 'abab', 'abba', 'baab'):
+                for target in ('a', 'b', 'z'):
+                    me, raw = mk(kinds)
+                    me.f['_from_raw_type'] = by_val
+                    mine = [x for x in raw if x.cls == 'Mine']
+                    for x, ch in zip(mine, pattern):
+                        x.f['val'] = ch
+                    vals = [x.f['val'] for x in mine]
+                    n += 1
+                    if meth == 'remove':
+                        want_exc = None if target in vals else 'ValueError'
+                        keep = list(mine)
+                        if target in vals:
+                            del keep[vals.index(target)]
+                    else:
+                        want_exc = None
+                        keep = [x for x in mine if x.f['val'] != target]
+                    before_raw = list(raw)
+                    got_exc = None
+                    try:
+                        Interp(me).call_function(fn, [me, target], {})
+                    except possem.Raised as ex:
+                        got_exc = str(ex).split(':', 1)[0].strip()
+                    now_raw = me.f['_raw_wrapper'].f['items']
+                    now_view = [x for x in now_raw if x.cls == 'Mine']
+                    shown = f'raw list {kinds} with the view\'s values {vals}, {meth}({target!r})'
+                    if bool(got_exc) != bool(want_exc):
+                        problems.setdefault(meth, f'{shown}: {"raises " + str(got_exc) if got_exc else "does not raise"}' + (
+                            '' if not got_exc else f'; the view afterwards is {[x.label + "=" + x.f["val"] for x in now_view]}'))
+                    elif not want_exc and [id(x) for x in now_view] != [id(x) for x in keep]:
+                        problems.setdefault(meth, f'{shown}: the view afterwards holds {[x.label + "=" + x.f["val"] for x in now_view]}, a list would hold '
+                                                  f'{[x.label + "=" + x.f["val"] for x in keep]}')
+                    elif [id(x) for x in now_raw if x.cls == 'Other'] != [id(x) for x in before_raw if x.cls == 'Other']:
+                        problems.setdefault(meth, f'{shown}: items that do not belong to the view were removed or reordered')
     if n < 800:
         raise AnalysisError(f'VIEW-SEM: only {n} calls evaluated')
     for meth in ('__len__', '__iter__', '__getitem__', '__setitem__', '__delitem__', 'insert', 'append', 'extend', 'pop', 'remove', 'discard', 'clear'):
